@@ -155,18 +155,21 @@ Definition no_reference (s : script) : bool := match s with STopK _ | SLog _ | S
    both tie orders against metric_ref_db and against the definition, and the two answers for a replay *)
 Record impl_obs := { io_text : option string; io_v1 : Z; io_v2 : Z; io_vdef : Z; io_wdef : option (list vrow);
                      io_got : option (list (option (lmap * Z * Q))); io_want : option (list vrow) }.
-Definition impl_case (s : script) (c : pctx) (d : LogqlSem.database) (tree : select) : impl_obs :=
+(* s0 = the script as written, s = the script the planners got (the reader's entry point gives a vector aggregation without
+   clause the grouping `by ()`: LogqlPlan.norm_script; the check compares norm_script s0 with s): the statement is judged
+   against metric_ref_db of s - the reference of the theorems - and, for an aggregation written without clause, against the
+   DEFINITION over s0 as well (one series with the empty label set) *)
+Definition impl_case (s0 s : script) (c : pctx) (d : LogqlSem.database) (tree : select) : impl_obs :=
   let q := impl_prep s c tree in
   let want := ref_rows s c d in
   let r1 := eval_stmt tie_id c d q in
   {| io_text := SqlRender.render q (c_cluster c);
      io_v1 := (if no_reference s then 3%Z else verdict_rows r1 want);
      io_v2 := (if no_reference s then 3%Z else verdict_rows (eval_stmt tie_rev c d q) want);
-     io_vdef := (if agg_grouped s || no_reference s then 2%Z else
-                 match r1, ref_rows_def s c d with Some _, Some _ => verdict_rows r1 (ref_rows_def s c d) | _, _ => 2%Z end);
-     io_wdef := (if agg_grouped s then None else ref_rows_def s c d);
+     io_vdef := (if agg_grouped s0 || no_reference s0 then 2%Z else
+                 match r1, ref_rows_def s0 c d with Some _, Some _ => verdict_rows r1 (ref_rows_def s0 c d) | _, _ => 2%Z end);
+     io_wdef := (if agg_grouped s0 then None else ref_rows_def s0 c d);
      io_got := option_map (map out_of_row) r1; io_want := want |}.
-
 (* what the check prints for a case: verdicts under both tie orders, and the two answers for a replay *)
 Record exec_obs := { eo_v1 : Z; eo_v2 : Z; eo_vdef : Z; eo_wdef : option (list vrow); eo_got : option (list (option (lmap * Z * Q))); eo_want : option (list vrow) }.
 Definition exec_case (s : script) (c : pctx) (d : LogqlSem.database) : exec_obs :=
@@ -174,3 +177,4 @@ Definition exec_case (s : script) (c : pctx) (d : LogqlSem.database) : exec_obs 
      eo_vdef := (if agg_grouped s then 2%Z else exec_verdict_def tie_id s c d);
      eo_wdef := (if agg_grouped s then None else ref_rows_def s c d);
      eo_got := option_map (map out_of_row) (exec_rows tie_id s c d); eo_want := ref_rows s c d |}.
+
